@@ -186,6 +186,9 @@ package keeper
 //@ ensures [C18,C06,C04] fixed-price-terms: err == nil && msg.BidType == BidTypeFixedPrice ==> msg.Price == old(Auction[msg.AuctionId]).StartPrice && (msg.Coin.Denom == old(Auction[msg.AuctionId]).PayingCoinDenom || msg.Coin.Denom == old(Auction[msg.AuctionId]).SellingCoin.Denom)
 //@ ensures [C18] batch-denominations: err == nil ==> (msg.BidType == BidTypeBatchWorth ==> msg.Coin.Denom == old(Auction[msg.AuctionId]).PayingCoinDenom) && (msg.BidType == BidTypeBatchMany ==> msg.Coin.Denom == old(Auction[msg.AuctionId]).SellingCoin.Denom)
 //@ ensures [C19] bid-id-is-next: err == nil ==> result0.Id == old(BidSeq[msg.AuctionId]) + 1 && BidSeq[msg.AuctionId] == result0.Id
+// The literal reading of C16 ("flagged as matched exactly when it received coins") for a fixed-price bid too small to
+// buy one coin (1 paying coin at price 2): C06 wants it accepted, it is flagged matched and receives nothing. Known finding.
+//@ ensures [C16] a-fixed-price-bid-is-flagged-matched-iff-it-buys-something: err == nil && msg.BidType == BidTypeFixedPrice ==> result0.IsMatched == (sellOf(result0, old(Auction[msg.AuctionId]).PayingCoinDenom) > 0)
 //@ ensures [C19,C16] recorded-as-placed: err == nil ==> result0.AuctionId == msg.AuctionId && result0.Bidder == strOf(addrOf(msg.Bidder)) && result0.Type == msg.BidType && result0.Price == msg.Price && result0.Coin == msg.Coin && result0.IsMatched == (msg.BidType == BidTypeFixedPrice) && Bid[msg.AuctionId][result0.Id].present && Bid[msg.AuctionId][result0.Id] == result0
 //@ ensures [C11,C19] existing-bids-untouched: forall(a, uint64, forall(i, uint64, err != nil || a != msg.AuctionId || i != old(BidSeq[msg.AuctionId]) + 1 ==> Bid[a][i] == old(Bid[a][i])))
 //@ ensures [C19] other-auctions-untouched: forall(x, uint64, x != msg.AuctionId ==> Auction[x] == old(Auction[x]) && BidSeq[x] == old(BidSeq[x]))
@@ -383,6 +386,10 @@ package keeper
 //@ requires auctionFieldsWF(auction, auction.Id) && auction.Id < 18446744073709551616
 //@ requires forall(t, Time, !VestingQueue[auction.Id][t].present)
 //@ modifies Auction, VestingQueue, Bal, SetT, XferN, XferT, *auction
+// The literal reading of C09 ("paid in the first block at or after its release time") for an instalment whose release
+// time has already passed when the auction settles (one block passes the end time and the release time, or the rounds
+// were extended beyond it): it is created unreleased and paid one block later. Known finding.
+//@ ensures [C09] instalments-already-due-are-paid-in-the-settlement-block: result == nil ==> forall(t, Time, VestingQueue[auction.Id][t].present && !old(VestingQueue[auction.Id][t]).present && t <= BlockTime ==> VestingQueue[auction.Id][t].Released)
 //@ ensures [C19,C07] object-and-record-stay-well-formed: err == nil ==> auctionFieldsWF(auction, auction.Id) && (old(Auction[auction.Id].present ==> auctionFieldsWF(Auction[auction.Id], auction.Id)) && Auction[auction.Id].present ==> auctionFieldsWF(Auction[auction.Id], auction.Id))
 //@ ensures [C15,C10,C11] auction-ids-stay-dense: err == nil && old(InvAuctionsDense()) && old(Auction[auction.Id].present) ==> InvAuctionsDense()
 //@ ensures [C09,C02,C08] no-schedule-pays-everything-at-once: result == nil && len(auction.VestingSchedules) == 0 ==> let(pd, auction.PayingCoinDenom, let(R, old(bal(payEsc(auction.Id), pd)), bal(payEsc(auction.Id), pd) == 0 && bal(addrOf(auction.Auctioneer), pd) == old(bal(addrOf(auction.Auctioneer), pd)) + R && auction.Status == AuctionStatusFinished && VestingQueue == old(VestingQueue)))
@@ -665,6 +672,7 @@ package keeper
 // time is reached, open ones settle or extend when their current end time is reached, vesting ones release what is due,
 // finished and cancelled ones are left alone; the first failure is returned.
 //@ func (Keeper).BeginBlocker
+//@ serves C17
 //@ requires Inv() && InvVQ() && InvMatched()
 //@ modifies Auction, Bid, MatchedBidsLen, VestingQueue, Bal, HookN, HookT, SetT, XferN, XferT, LastMatchTotal, LastMatchPrice, LastAllocHas, LastAlloc, LastRefundHas, LastRefund
 //@ ensures [C15,C10,C11] auction-ids-stay-dense: err == nil && old(InvAuctionsDense()) ==> InvAuctionsDense()
@@ -673,6 +681,10 @@ package keeper
 //@ ensures [C08,C12,C06] waiting-auctions-open-exactly-at-their-start-time: result == nil ==> let(dom, old(domOf(Auction)), forall(j, int, 0 <= j && j < ilistN(dom) ==> let(x, ilistKey(dom, j), old(Auction[x]).Status == AuctionStatusStandBy ==> Auction[x].Status == ite(old(Auction[x]).StartTime <= BlockTime, AuctionStatusStarted, AuctionStatusStandBy))))
 //@ ensures [C08,C06] open-auctions-are-untouched-before-their-end-time: result == nil ==> let(dom, old(domOf(Auction)), forall(j, int, 0 <= j && j < ilistN(dom) ==> let(x, ilistKey(dom, j), old(Auction[x]).Status == AuctionStatusStarted && old(Auction[x]).EndTimes[len(old(Auction[x]).EndTimes)-1] > BlockTime ==> Auction[x] == old(Auction[x]))))
 //@ ensures [C08,C13,C06] open-auctions-settle-or-extend-at-their-end-time: result == nil ==> let(dom, old(domOf(Auction)), forall(j, int, 0 <= j && j < ilistN(dom) ==> let(x, ilistKey(dom, j), old(Auction[x]).Status == AuctionStatusStarted && old(Auction[x]).EndTimes[len(old(Auction[x]).EndTimes)-1] <= BlockTime ==> (Auction[x].Status == ite(len(Auction[x].VestingSchedules) == 0, AuctionStatusFinished, AuctionStatusVesting)) || (Auction[x].Kind == KindBatch && Auction[x].Status == AuctionStatusStarted && len(Auction[x].EndTimes) == len(old(Auction[x]).EndTimes) + 1))))
+// The literal reading of C08 ("settles at the first block at or after its end time") for an auction that is still waiting
+// when a block arrives whose time has passed its start AND its end time: the code opens it in that block and settles it
+// in the next one (bids are accepted in between). Known finding, see /verif/known_findings.json.
+//@ ensures [C08] waiting-auctions-past-their-end-time-settle-in-the-same-block: result == nil ==> let(dom, old(domOf(Auction)), forall(j, int, 0 <= j && j < ilistN(dom) ==> let(x, ilistKey(dom, j), old(Auction[x]).Status == AuctionStatusStandBy && old(Auction[x]).StartTime <= BlockTime && old(Auction[x]).EndTimes[len(old(Auction[x]).EndTimes)-1] <= BlockTime ==> Auction[x].Status != AuctionStatusStarted)))
 //@ ensures [C07,C08,C12] finished-and-cancelled-are-permanent-and-harmless: result == nil ==> let(dom, old(domOf(Auction)), forall(j, int, 0 <= j && j < ilistN(dom) ==> let(x, ilistKey(dom, j), old(Auction[x]).Status == AuctionStatusFinished || old(Auction[x]).Status == AuctionStatusCancelled ==> Auction[x] == old(Auction[x]))))
 //@ ensures [C19] agreed-terms-never-change: result == nil ==> forall(x, uint64, old(Auction[x]).present ==> sameExcept(Auction[x], old(Auction[x]), Status, EndTimes, MatchedPrice))
 //@ ensures [C07,C08,C19,C01,C02,C03,C04,C05,C06,C09,C11,C12,C13,C16] preserves-the-module-invariant: result == nil ==> Inv() && InvVQ() && InvMatched()
